@@ -249,3 +249,83 @@ def cache_state_cleared(ix, R, oid, sites=('taurex/cache/opacitycache.py::Opacit
                 detail='; '.join('%s is written by %s (which run or follow discover()) and not reset by clear_cache()'
                                  % (a, sorted(derived[a])) for a in missing) or 'no method calls discover()',
                 loc=meths['clear_cache'].loc())
+
+
+def loop_closures(ix, R, oid, relpaths, what):
+    """A function defined inside a loop and handed out of the iteration (registered as a fitting-parameter getter /
+    setter, stored, appended, returned) must not read a variable of the loop as a free variable: Python binds it when
+    the closure is CALLED, so every closure would see the value of the LAST iteration.  The repository's idiom is a
+    default argument (`def write_mol(self, value, idx=idx)`); this rule checks that every per-iteration variable a
+    closure reads is bound that way."""
+    import ast as _ast
+    import builtins as _bi
+    bad = []
+    n = 0
+    for rel in relpaths:
+        for path in sorted(ix.modules):
+            if not (path == rel or (rel.endswith('/') and path.startswith(rel))):
+                continue
+            for f in ix.functions_in(path):
+                for loop in [x for x in _ast.walk(f.node) if isinstance(x, (_ast.For, _ast.While))]:
+                    per_iter = {t.id for t in _ast.walk(loop.target) if isinstance(t, _ast.Name)} if isinstance(loop, _ast.For) else set()
+                    for st in loop.body:
+                        for x in _ast.walk(st):
+                            if isinstance(x, (_ast.FunctionDef, _ast.Lambda)):
+                                continue
+                            if isinstance(x, _ast.Name) and isinstance(x.ctx, _ast.Store):
+                                per_iter.add(x.id)
+                    for g in [x for st in loop.body for x in _ast.walk(st) if isinstance(x, (_ast.FunctionDef, _ast.Lambda))]:
+                        n += 1
+                        a = g.args
+                        params = {p.arg for p in a.args + a.kwonlyargs + a.posonlyargs}
+                        if a.vararg:
+                            params.add(a.vararg.arg)
+                        if a.kwarg:
+                            params.add(a.kwarg.arg)
+                        body = g.body if isinstance(g.body, list) else [g.body]
+                        local = {x.id for b_ in body for x in _ast.walk(b_) if isinstance(x, _ast.Name) and isinstance(x.ctx, _ast.Store)}
+                        loads = {x.id for b_ in body for x in _ast.walk(b_) if isinstance(x, _ast.Name) and isinstance(x.ctx, _ast.Load)}
+                        free = (loads - params - local) & per_iter
+                        free -= {getattr(g, 'name', None)}
+                        free = {v for v in free if not hasattr(_bi, v)}
+                        if not free:
+                            continue
+                        # does the closure leave the iteration?  (used as a value: passed, stored, appended, returned)
+                        nm = getattr(g, 'name', None)
+                        escapes = isinstance(g, _ast.Lambda) and not _called_in_place(loop, g)
+                        if nm:
+                            alias = {nm}
+                            for st in loop.body:
+                                for x in _ast.walk(st):
+                                    if isinstance(x, _ast.Assign) and isinstance(x.value, _ast.Name) and x.value.id in alias:
+                                        alias |= {t.id for t in x.targets if isinstance(t, _ast.Name)}
+                            for st in loop.body:
+                                for x in _ast.walk(st):
+                                    if isinstance(x, _ast.Call):
+                                        for arg in list(x.args) + [k.value for k in x.keywords]:
+                                            if isinstance(arg, _ast.Name) and arg.id in alias:
+                                                escapes = True
+                                    if isinstance(x, (_ast.Return, _ast.Yield)) and x.value is not None and any(
+                                            isinstance(y, _ast.Name) and y.id in alias for y in _ast.walk(x.value)):
+                                        escapes = True
+                                    if isinstance(x, _ast.Assign) and any(not isinstance(t, _ast.Name) for t in x.targets) and any(
+                                            isinstance(y, _ast.Name) and y.id in alias for y in _ast.walk(x.value)):
+                                        escapes = True
+                        if escapes:
+                            bad.append((f, g, sorted(free)))
+    R.check(oid, 'EFF', ', '.join(relpaths),
+            'every function defined in a loop of %s and handed out of the iteration binds the per-iteration variables it '
+            'reads as default arguments (no late-bound loop variable: all closures would see the last iteration) '
+            '(%d closures in loops)' % (what, n),
+            not bad, key='; '.join('%s.%s reads %s' % (f.qualname, getattr(g, 'name', '<lambda>'), fr) for f, g, fr in bad),
+            detail='; '.join('%s (defined in a loop of %s) reads the loop variable(s) %s when it is called, not when it is '
+                             'defined' % (getattr(g, 'name', '<lambda>'), f.qualname, fr) for f, g, fr in bad),
+            loc=bad[0][0].loc(bad[0][1]) if bad else None)
+
+
+def _called_in_place(loop, lam):
+    import ast as _ast
+    for x in _ast.walk(loop):
+        if isinstance(x, _ast.Call) and x.func is lam:
+            return True
+    return False
